@@ -131,7 +131,14 @@ namespace rpc
         slice(off_t off, size_t len) : offset(off), length(len) {}
 
         string anchor(const buffer& base_buffer) const {
-            assert(offset + length <= base_buffer.size());
+            // the offset and length of a deserialized slice come from the
+            // wire: a slice that does not lie inside the base buffer (or has
+            // no room for the terminating NUL) anchors to an empty string,
+            // never to memory outside of the buffer
+            auto size = base_buffer.size();
+            if (offset < 0 || (size_t)offset > size ||
+                length == 0 || length > size - (size_t)offset)
+                return string("");
             return {(char*) base_buffer.addr() + offset, length};
         }
 
